@@ -78,6 +78,10 @@ def wide_ops(ctx: Ctx, table: list) -> list[dict]:
     for row in table:
         pool = [gen.valid_iban(row, rng, (["random", "low", "high"][k % 3] if not ctx.quick else "random"))
                 for k in range(n_seeds)] + natvalid.get(gen.cc_of(row), [])
+        # valid IBANs whose BBAN repeats its own prefix or spells a word software may react to
+        cc0 = gen.cc_of(row)
+        for b in gen.echo_bbans(row, rng) + gen.word_bbans(row, rng):
+            add(cc0 + gen.check_digits(cc0, b) + b, ENTRY)
         for k, iban in enumerate(pool):
             if iban is None:
                 continue
